@@ -253,6 +253,10 @@ def h_tuple(it, args, kw, node):
 
 
 def h_set(it, args, kw, node):
+    if args and type(args[0]).__name__ == "SSet":
+        from .values import SSet
+
+        return SSet(args[0].term)
     items = it.iterate(args[0], node) if args else []
     if contains_symbolic(items):
         it.outside("set() of symbolic items", node)
@@ -372,4 +376,25 @@ def call_pseudo(it, bm, args, kw, node):
             return sym.to_int(v)
     if what == "sfmt":
         return SFmt([TextOf(v, name)])
+    if what == "sstr":
+        from .values import SStr
+
+        if name == "lower" and not args:
+            return SStr(sym.S_LOWER(v.term))
+        if name == "strip" and list(args) == ["_"]:
+            return SStr(sym.S_STRIP(v.term))
+    if what == "sset":
+        from .values import SSet
+
+        if name == "add" and len(args) == 1:
+            t = ops.str_term(args[0])
+            if t is None:
+                it.outside("adding a non-string to a set of names", node)
+            hook = getattr(it, "on_set_add", None)
+            if hook is not None:
+                hook(v, t)
+            v.term = z3.SetAdd(v.term, t)
+            return None
+        if name == "copy":
+            return SSet(v.term)
     it.outside(f"method {name}", node)
